@@ -98,7 +98,9 @@ def build(cls, case, fem):
             body = fem.SolidBody(fem.LinearElasticPlasticIsotropicHardening(E=100.0, nu=0.3, sy=1.0, K=10.0), fcx, statevars=statevars)
         else:
             # the documented multiplier of an item scales its vector and matrix alike (None / 1 in half of the cases)
-            mult = (None, 2.5, 1.0, 0.4)[case["pseed"] % 4] if cls in ("nonlinear", "loads") else None
+            # (two of six are tiny - a soft body in a small-number unit system: reaction forces of 1e-6 .. 1e-5, far below the solver's
+            # regularisation of the force norm, where "relative to the reaction forces" still has to mean what it says)
+            mult = (None, 2.5, 1.0, 0.4, 1e-5, 3e-6)[case["pseed"] % 6] if cls in ("nonlinear", "loads") else None
             body = fem.SolidBody(fem.NeoHooke(mu=mu, bulk=bulk), fcx, multiplier=mult)
         items = [body]
         # (selected by a mix of drawn values, so that Hypothesis' minimal examples - all zeros, nothing moves - are not the only ones)
